@@ -25,7 +25,11 @@ RULE = ("grids with 2..5 modes of size 3..8 (<= 6000 points). targets: (tensors)
         "(generic) non-representable functions at fixed small ranks — interpolation and grid clauses only; (ops) a/b, c/a, a**p, tn.<unary> for the 19 "
         "unary and 5 binary wrappers of ops.py on rank-1 positive tensors with entries in (0.3,0.95); (minmax) tn.minimum/argmin/maximum/argmax and "
         "cross(_minimize=True) on tensors and domains. NumPy and torch RNGs are seeded from case['seed'] before every cross call. "
-        "distinct = (kind, function, shape, formats/ranks of the arguments, rank mode, eps, function_arg, seed); non-trivial = always (>= 2 modes)")
+        "distinct = (kind, function, shape, formats/ranks of the arguments, rank mode, eps, function_arg, seed); non-trivial = always (>= 2 modes). "
+        "Model side: every cross run records the pivots returned by py_maxvol / py_rect_maxvol; the driver command cross_rsets rebuilds all "
+        "right index sets from the last sweep's pivots (Model/Cross.lean rsetsOf) and they are compared exactly with info['rsets']; the "
+        "hypotheses of C08.cross_interpolates (identity on pivot columns to 1e-9, first core = function values to 1e-12) are validated on the "
+        "returned cores (histogram theorem_hypotheses:*)")
 TRUSTED = ["recovery of a representable target is conditional on the quality of the maxvol pivots for the given seed (floating-point pivoting heuristics, "
            "outside any model): a recovery with relative max-norm error in (1e-6, 1e-3] is COUNTED (hist key recovery_soft_fail:*) and not reported; only "
            "clear failures (> 1e-3) are reported as violations of the 'for every seed' clause; their class names the slack profile of the run (cap "
@@ -165,6 +169,24 @@ def cases(rng, tier):
 def seed_all(seed):
     np.random.seed(seed % (1 << 32))
     torch.manual_seed(seed)
+
+
+@contextlib.contextmanager
+def record_maxvol(calls):
+    """record the pivots returned by the maxvol routines cross() imports at call time (tntorch.maxvol.py_maxvol / py_rect_maxvol)"""
+    import tntorch.maxvol as mv
+    o1, o2 = mv.py_maxvol, mv.py_rect_maxvol
+
+    def w1(*a, **k):
+        r = o1(*a, **k); calls.append(np.array(r[0]).copy()); return r
+
+    def w2(*a, **k):
+        r = o2(*a, **k); calls.append(np.array(r[0]).copy()); return r
+    mv.py_maxvol, mv.py_rect_maxvol = w1, w2
+    try:
+        yield
+    finally:
+        mv.py_maxvol, mv.py_rect_maxvol = o1, o2
 
 
 def quiet(fn):
@@ -335,7 +357,9 @@ def run_cross(ctx, case):
     ctx.count("mode:" + mode); ctx.count("N:%d" % N); ctx.count("farg:" + case["farg"]); ctx.count("fn:" + case["fn"])
     ctx.count("cross_runs")
     seed_all(case["seed"])
-    res = quiet(lambda: safe(lambda: tn.cross(**kw)))
+    mv_calls = []
+    with record_maxvol(mv_calls):
+        res = quiet(lambda: safe(lambda: tn.cross(**kw)))
 
     def report(clause, what, extra=None):
         cls = {"op": "cross", "clause": clause, "predicate": pred}
@@ -424,9 +448,46 @@ def run_cross(ctx, case):
                     ctx.count("cross_forward_soft_fail")
                 else:
                     ctx.count("cross_forward_hard_fail")
-    # ---- model hook (main session): kernels, index sets, Rs and cores per iteration vs Cross.lean
-    if getattr(ctx, "use_model", False) and not getattr(ctx, "search_only", False):
-        pass  # MODEL HOOK: `t.cores`, `info` (lsets, rsets, Rs, left_locals), rec.calls are available here
+    # ---- model side (Model/Cross.lean, C08.cross_interpolates): the right index sets are the nesting `rsetsOf` of the pivots maxvol
+    #      returned in the last right-to-left sweep; hypotheses of the theorem (identity on the pivot columns, first core = function
+    #      values) are validated numerically; hypotheses met + conclusion violated would be a model-vs-spec disagreement
+    if getattr(ctx, "use_model", False) and not getattr(ctx, "search_only", False) and N >= 2 and len(mv_calls) >= N - 1:
+        last = mv_calls[-(N - 1):]                      # j = N-1, …, 1
+        locs = {j: last[N - 1 - j] for j in range(1, N)}
+        toks = ["cross_rsets", str(N - 1)]
+        for j in range(1, N):
+            toks += [str(Rs[j]), str(Rs[j + 1])] + [str(int(v)) for v in locs[j][:Rs[j]]]
+        ans = ctx.drv().call(" ".join(toks))
+        model_sets, pos, okparse = [], 1, ans[0] == "ok"
+        try:
+            while okparse and pos < len(ans):
+                assert ans[pos] == "L"
+                cnt = int(ans[pos + 1]); pos += 2
+                rows = []
+                for _ in range(cnt):
+                    ln = int(ans[pos]); rows.append([int(v) for v in ans[pos + 1:pos + 1 + ln]]); pos += 1 + ln
+                model_sets.append(rows)
+        except Exception:  # noqa
+            okparse = False
+        impl_sets = [[[int(v) for v in row[:-1]] for row in np.asarray(info["rsets"][j - 1])] for j in range(1, N)]
+        ctx.count("model:cross_rsets")
+        if not okparse or model_sets != impl_sets:
+            ctx.corr("cross: info['rsets'] is not the nesting of the last sweep's maxvol pivots (model rsetsOf): impl %s, model %s"
+                     % (impl_sets, model_sets if okparse else ans[:6]), case)
+        else:
+            cs = [num(c) for c in t.cores]
+            piv = 0.0
+            for j in range(1, N):
+                loc = np.asarray(locs[j][:Rs[j]], dtype=np.int64)
+                sub = cs[j][:, loc // Rs[j + 1], loc % Rs[j + 1]]             # [a, k]
+                piv = max(piv, float(np.max(np.abs(sub - np.eye(Rs[j])))))
+            first = max(float(np.max(np.abs(cs[0][0, :, k] - F[(slice(None),) + tuple(impl_sets[0][k])]))) for k in range(Rs[1])) / max(
+                float(np.max(np.abs(F))), 1e-300)
+            hyp = piv <= 1e-9 and first <= 1e-12
+            ctx.count("theorem_hypotheses:" + ("met" if hyp else "pivot identity off by %.0e" % piv if piv > 1e-9 else "first core differs"))
+            if hyp and not ok:
+                ctx.spec("cross: hypotheses of C08.cross_interpolates hold numerically (pivot identity %.2g, first core %.2g) but the result "
+                         "differs from the function on the rsets[0] fibres (%s)" % (piv, first, err), case)
 
 
 # ------------------------------------------------------------------------------------------------ operators
